@@ -331,6 +331,24 @@ def run(spec, ctx):
                     if bad:
                         ctx.violation("view-lists-another-query's-matches", {"kind": "key-twins"}, {"document": repr(kdocs[i]), "query": text, "pointers": [str(x) for x in ptrs], "expected": [str(m.pointer()) for m in ms]})
                         return
+        # long sequences (lengths around powers of two, where a buffer, a block or a batch may end): every operation with counts
+        # on either side of the length and of the power of two, alone and after a skip, read through values / pointers
+        for L_ in (255, 256, 257, 1023, 1024, 1025, 1030, 2049, 4097, 65537):
+            doc_ = list(range(L_))
+            ms_ = list(jsonpath.finditer("$[*]", doc_))
+            p2 = 1 << (L_.bit_length() - 1)
+            for op_ in ("tee", "take", "limit", "skip", "tail", "head", "drop", "last"):
+                for c_ in ((1, 2, 3) if op_ == "tee" else (p2 - 1, p2, p2 + 1, L_ - 1, L_, L_ + 1)):
+                    for chain_ in ([(op_, c_)], [("skip", 1), (op_, c_)], [(op_, c_), ("skip", p2 - 1)]):
+                        if L_ > 5000 and (op_ not in ("tee", "take", "tail") or len(chain_) > 1 and chain_[0][0] == "skip"):
+                            continue
+                        ctx.evaluation()
+                        diff = run_chain(ms_, chain_, "values" if L_ > 5000 else r.choice(["values", "locations", "iter"]), env)
+                        ctx.count("chains_over_long_sequences")
+                        if diff and diff[0]:
+                            ctx.violation("chain-differs-from-list-model:long-sequence:%s" % op_, {"kind": "key-twins"}, {"sequence_length": L_, "chain": [list(x) for x in chain_], "diff": diff[0][:300]})
+                            return
+            ctx.cell("long_sequences", "length=%d" % L_)
         # counts far beyond any sequence (2^31, 2^53, the platform's largest index) and counts beyond an environment's own
         # narrowed index range: "more than there is" means everything, as with list slicing
         import sys as _sys
